@@ -183,6 +183,14 @@ PovmSet(c) ==
                          ks |-> << MatKron(Diag3(R1, R0, R0), 3, M2(R1, R1, R1, R1), 2), MatKron(Diag3(R0, R1, R0), 3, M2(R1, R1, R1, R1), 2),
                                    MatKron(Diag3(R0, R0, R1), 3, M2(R1, R1, R1, R1), 2), MatKron(Diag3(R1, R0, R0), 3, M2(R1, RM1, RM1, R1), 2),
                                    MatKron(Diag3(R0, R1, R0), 3, M2(R1, RM1, RM1, R1), 2), MatKron(Diag3(R0, R0, R1), 3, M2(R1, RM1, RM1, R1), 2) >>]
+    \* measurement operators that are NOT normal (M M^dagger # M^dagger M): the probability is Tr(M rho M^dagger) = Tr(M^dagger M rho)
+    [] c = "reset"   -> [d |-> 2, s |-> 0, ks |-> <<P0, M2(R0, R1, R0, R0)>>]                      \* |0><0|, |0><1|
+    [] c = "damp"    -> [d |-> 2, s |-> 1, ks |-> <<M2(RS2, R0, R0, R1), M2(R0, R1, R0, R0)>>]      \* diag(1,1/sqrt2), |0><1|/sqrt2
+    [] c = "jump3"   -> [d |-> 3, s |-> 0, ks |-> << Diag3(R1, R0, R0), << <<R0, R1, R0>>, <<R0, R0, R0>>, <<R0, R0, R0>> >>,
+                                                     << <<R0, R0, R0>>, <<R0, R0, R1>>, <<R0, R0, R0>> >> >>]   \* |0><0|, |0><1|, |1><2|
+    [] c = "resetXproj" -> [d |-> 4, s |-> 0,
+                            ks |-> << MatKron(P0, 2, P0, 2), MatKron(P0, 2, P1, 2),
+                                      MatKron(M2(R0, R1, R0, R0), 2, P0, 2), MatKron(M2(R0, R1, R0, R0), 2, P1, 2) >>]
     [] c = "bell"    -> [d |-> 4, s |-> 2,                   \* projectors on the four Bell states (x 2)
                          ks |-> << [r \in 1..4 |-> [cc \in 1..4 |-> IF r \in {1,4} /\ cc \in {1,4} THEN R1 ELSE R0]],
                                    [r \in 1..4 |-> [cc \in 1..4 |-> IF r \in {1,4} /\ cc \in {1,4} THEN (IF r = cc THEN R1 ELSE RM1) ELSE R0]],
@@ -267,7 +275,8 @@ IdMZIHom == \A k \in {0, 4} : MZI(k)[5][5] # R0 /\ MZI(k)[3][5] = R0 /\ MZI(k)[7
 \* channels and POVMs are complete
 KrausIds == {"bitflip", "dephase", "ampdamp", "phaseflipY", "unitS", "unitH", "deph3", "loss3",
              "flipXdamp", "corrflip", "unitCX", "flipXdeph3", "loss3Xdamp", "corrflip6", "ctrlshift6"}
-PovmIds  == {"proj", "xbasis", "nonproj", "ybasis", "proj3", "projXnon", "bell", "nonXproj3", "proj3Xx"}
+PovmIds  == {"proj", "xbasis", "nonproj", "ybasis", "proj3", "projXnon", "bell", "nonXproj3", "proj3Xx",
+             "reset", "damp", "jump3", "resetXproj"}
 IdKraus == \A c \in KrausIds : Complete(KrausSet(c))
 IdPovm  == \A c \in PovmIds : Complete(PovmSet(c))
 
